@@ -27,7 +27,7 @@ func checkC12(w *World, r *Report) {
 	// exemptions, each checked
 	exempt := checkC12Exemptions(w, r, p, cf)
 
-	ru := r.Rule("C12.1", "reset coverage: at every point where a pooled context is exposed to user code, every non-exempt field of the context struct has been assigned since the context was taken from the pool", 8)
+	ru := r.Rule("C12.1", "reset coverage: at every point where a pooled context is exposed to user code, every non-exempt field of the context struct has been assigned since the context was taken from the pool", 4)
 	ru.Idiom("c.reset(w, r) / c.resetWithWriter(w, r) right after Get", "explicit field assignments in CloneWith", "route and tsr assigned on each branch of ServeHTTP before the handler call")
 	need := func(kind string) []*types.Var {
 		var out []*types.Var
@@ -95,12 +95,12 @@ func checkC12(w *World, r *Report) {
 			})
 		}
 	}
-	if nret < 3 {
-		ru.Fail("contexts returned to callers", "-", "Router.Lookup, Txn.Lookup and CloneWith return pooled contexts", fmt.Sprintf("only %d such returns found", nret))
+	if nret < 2 {
+		r.Unrecognised("C12.1: only %d functions returning a pooled context found", nret)
 	}
 
 	// route/tsr/scope values for the route handler: route is the matched route, tsr the lookup's flag
-	ru4 := r.Rule("C12.4", "the route chain sees its own route: at each route handler call c.route was assigned the route whose chain is invoked, and c.tsr the flag returned by that lookup", 2)
+	ru4 := r.Rule("C12.4", "the route chain sees its own route: at each route handler call c.route was assigned the route whose chain is invoked, and c.tsr the flag returned by that lookup", 1)
 	for _, c := range d.routeCalls {
 		// callee = load(hall of X); find the store to c.route in the same block and compare its value with X
 		rb, _, _ := loadedField(c.Call.Value)
@@ -137,7 +137,7 @@ type exemption struct {
 
 // checkC12Exemptions establishes, with checks, which fields need no per-request assignment.
 func checkC12Exemptions(w *World, r *Report, p *Proto, cf *CtxFlow) map[string]exemption {
-	ru := r.Rule("C12.1x", "exemptions from reset coverage are justified: construction-time constants are stored only by the allocator; scratch fields are never read by a Context method; the trailing-slash parameter copy is read only under the (reset) tsr flag", 3)
+	ru := r.Rule("C12.1x", "exemptions from reset coverage are justified: construction-time constants are stored only by the allocator; scratch fields are never read by a Context method; the trailing-slash parameter copy is read only under the (reset) tsr flag", 2)
 	ex := map[string]exemption{}
 	alloc := w.Method("iTree", "allocateContext")
 	// (1) constants: fields stored only in allocateContext (or on a context struct allocated in the storing function)
@@ -283,7 +283,7 @@ func checkC12Recorder(w *World, r *Report, cf *CtxFlow) {
 
 // checkC12Clone: nothing stored in the struct returned by Clone aliases pooled or per-request mutable storage.
 func checkC12Clone(w *World, r *Report, cf *CtxFlow) {
-	ru := r.Rule("C12.3", "clones do not alias pooled storage: every pointer, slice, map or interface stored into the context struct built by Clone is freshly made, or one of the immutable values (route, router); never the receiver's params, writer, request, recorder or cached query", 6)
+	ru := r.Rule("C12.3", "clones do not alias pooled storage: every pointer, slice, map or interface stored into the context struct built by Clone is freshly made, or one of the immutable values (route, router); never the receiver's params, writer, request, recorder or cached query", 3)
 	clone := w.Method("cTx", "Clone")
 	recv := ssa.Value(clone.Params[0])
 	immutable := map[string]bool{"fox": true, "route": true}
